@@ -34,6 +34,9 @@ claim("C20", "abstract interpretation of each setter's store into a clamp domain
 claim("C16", "exact rational polynomial normal forms (log-linear slope vs ln10/20, inverse getter) + field-sensitive forward taint with closure bodies from every read of the vocoder's volume + exhaustive output-store rule, over rustc MIR",
       "Sound static decision that set/get volume are an inverse dB pair with slope ln10/20, that every store into the output buffer (both filter families) is (volume-independent value) x volume, and that volume reaches no other store, call or branch in the vocoder; hence every sample scales by 10^(v/20) and nothing else changes.")
 
+claim("C19", "construct-set analysis + CFG dominance of Ok-returns and stores by normalised success edges of the validating calls (check-before-assign), over rustc MIR",
+      "Sound static decision that VoiceSet/Weights can only be built by their validating constructors, that VoiceSet::new rejects empty lists and any metadata mismatch (global, stream count, per-stream; derived PartialEq), that Weights::new accepts only sums within 1e-6 of 1, and that each weight setter's single store is dominated by the success edges of both the sum and the length check - so a rejected update executes no store, for every history of updates.")
+
 
 def main():
     props = [json.loads(l) for l in open(os.path.join(VERIF, "properties.jsonl"))]
